@@ -138,9 +138,25 @@ _GRAMMARS = {}
 
 
 def grammar(version):
+    """'3.10' -> the stock grammar; '3.10+c' -> a custom grammar of the same version (one nonterminal
+    renamed, so that every tree with an assignment differs from the stock grammar's tree)."""
     g = _GRAMMARS.get(version)
     if g is None:
-        g = _GRAMMARS[version] = parso.load_grammar(version=version)
+        if version.endswith('+c'):
+            from parso.grammar import PythonGrammar
+            from parso.utils import parse_version_string
+            base = version[:-2]
+            stock = parso.load_grammar(version=base)
+            import os as _os
+            path = _os.path.join(_os.path.dirname(parso.__file__), 'python',
+                                 'grammar%s%s.txt' % (stock.version_info.major, stock.version_info.minor))
+            with open(path) as f:
+                text = f.read()
+            text = text.replace('expr_stmt', 'expr_statement')
+            g = PythonGrammar(parse_version_string(base), text)
+        else:
+            g = parso.load_grammar(version=version)
+        _GRAMMARS[version] = g
     return g
 
 
@@ -931,6 +947,8 @@ class World:
             mt = op.get('mt')
             if mt == 'same' and old is not None:
                 mtime = old.mtime
+            elif mt == 'epoch':
+                mtime = 0.0                    # --mtime=@0 tarballs, reproducible-build checkouts
             elif isinstance(mt, (int, float)):
                 mtime = fs.stamp() + mt
                 if fs.gran:
